@@ -3,6 +3,9 @@
 desc = {"kind": "threshold", "op": "ge"|"le", "table": [[arm, t], ...], "default": t}
      | {"kind": "parity"}                       reward is a success when round(reward) is even
      | {"kind": "flip"}                         1 - reward on {0,1}: an involution, not idempotent
+     | {"kind": "strkey", "table": [[str(arm), t], ...], "default": t}   thresholds looked up under the label's text (a
+                                                table read from JSON), answer computed with numpy-friendly arithmetic: the
+                                                function accepts whole arrays without raising but is not element-wise then
 any desc may carry "poison": v - the binarizer raises ValueError for the reward v (a value it cannot convert), whatever
 the arm: the way a user function fails in the middle of a batch
 """
@@ -35,6 +38,24 @@ class Threshold:
 
     def __repr__(self):
         return "Threshold(%r,%r,%r)" % (self.table, self.op, self.default)
+
+
+class StrKey:
+    def __init__(self, table, default):
+        self.table = {str(k): t for k, t in table}
+        self.default = default
+
+    def __call__(self, arm, reward):
+        return (reward >= self.table.get(str(arm), self.default)) * 1
+
+    def __eq__(self, other):
+        return isinstance(other, StrKey) and (self.table, self.default) == (other.table, other.default)
+
+    def __hash__(self):
+        return hash(self.default) + 23
+
+    def __repr__(self):
+        return "StrKey(%r,%r)" % (self.table, self.default)
 
 
 class Parity:
@@ -93,6 +114,8 @@ def make(desc):
     kind = desc["kind"]
     if kind == "threshold":
         return Threshold(desc["table"], desc.get("op", "ge"), desc.get("default", 0))
+    if kind == "strkey":
+        return StrKey(desc["table"], desc.get("default", 0))
     if kind == "parity":
         return Parity()
     if kind == "flip":
